@@ -13,7 +13,7 @@ from harness import c01 as H1
 
 RULE = ('FFT cases: every shape in {1..9}^2 (all parity pairs, square and not) plus a few up to 24x17, Q in {1,2,3,1.5,2.37,1.2}, '
         'complex (70%) / real input, float64 (85%) / float32 configuration: energy of focus/unfocus/pad2d, unfocus(focus)=id, '
-        'focus(unfocus)=id, unfocus(focus(f,Q),1)=pad2d(f,Q), Wavefront.focus (given and DEFAULT Q) / unfocus incl. space and dx '
+        'focus(unfocus)=id, unfocus(focus(f,Q),1)=pad2d(f,Q) and its dual, focus(f,Q)=focus(pad2d(f,Q),1), Wavefront.focus (given and DEFAULT Q) / unfocus incl. space and dx '
         'round trip; band-complete cases: (m,Qy) and (n,Qx) drawn from all pairs with m*Q integer, '
         'Q in {1,1.5,2,2.5,3,4/3,5/3,1.25}, shifts from {0,+-1,+-2.5,(1.5,-2.25)}, input dtype from {complex128, float64, complex64, '
         'float32, int64, bool}, memory layouts C/F/transposed/strided/negative-stride/read-only, arguments as tuple/list/ndarray/'
@@ -178,6 +178,15 @@ def pred_fft(c, verbose=False):
             ok, err = close(back, pad, at)
             if not ok:
                 return False, f'unfocus(focus(f,Q),1) != pad2d(f,Q): max err {err:.3g}', {}
+            back = pr.focus(unf, 1)
+            ok, err = close(back, pad, at)
+            if not ok:
+                return False, f'focus(unfocus(f,Q),1) != pad2d(f,Q): max err {err:.3g}', {}
+            # theorem focus_is_focus_of_pad: the padded route is the unpadded route applied to the padded array
+            for nm, fn_, a in (('focus', pr.focus, foc), ('unfocus', pr.unfocus, unf)):
+                ok, err = close(fn_(pad, 1), a, at)
+                if not ok:
+                    return False, f'{nm}(f,Q) != {nm}(pad2d(f,Q),1): max err {err:.3g}', {}
         # the Wavefront methods: energy, spaces, and the sample spacing must come back after unfocus(focus(.))
         try:
             efl, wvl_, dx_ = 123.4, 0.55, 0.731
@@ -721,7 +730,9 @@ MANIFEST_ENTRY = {
              'sqrt, complex conjugation): (1) orthogonality sum_k e(k d/L) = L [L | d]; (2) E E^H = 1 for the normalised centred / '
              'shifted DFT kernel over a full period, and abstract Parseval from it; (3) focus and unfocus with the generated shift order / '
              'norm / transform / pad offset conserve energy INCLUDING the zero padding, for every padded shape >= the input; pad2d alone '
-             'conserves energy; unfocus(focus(f,1),1) = f and focus(unfocus(F,1),1) = F for every shape; (4) dft2 / idft2 with the '
+             'conserves energy; unfocus(focus(f,1),1) = f and focus(unfocus(F,1),1) = F for every shape; focus(f,Q) = focus(pad2d(f,Q),1) '
+             'as arrays (likewise unfocus) and hence unfocus(focus(f,Q),1) = pad2d(f,Q), focus(unfocus(F,Q),1) = pad2d(F,Q) sample for '
+             'sample for every padded shape of any parity (every Q >= 1); (4) dft2 / idft2 with the '
              'generated kernel sign, flags, wiring, scalars and norms conserve energy onto the full band (M = m Qy, N = n Qx integers >= '
              'm, n) and idft2(dft2 f) = f for every shift; the same (energy and round trip) for czt2 / iczt2 as interpreters over the '
              'generated statement list, signs, glue, wiring and constants; (5) the transfer function built from the GENERATED coefficient '
@@ -731,7 +742,7 @@ MANIFEST_ENTRY = {
              'norm flags of BOTH branches of angular_spectrum conserves energy, is the identity at z=0, composes additively and is undone '
              'at -z on the grid it works on; the tf= branch conserves energy for every unit-modulus tf and equals the z branch; for Q != 1 '
              'the output at z=0 is pad2d(f,Q) (theorem asp_padded_at_zero_is_pad = the known finding). ONLY COMPARED (no theorem): '
-             'unfocus(focus(f,Q),1) = pad2d(f,Q) for Q > 1; the Wavefront wrappers (spaces, dx round trip); fftfreq table.'),
+             'the Wavefront wrappers (spaces, dx round trip); fftfreq table.'),
     'note': ('Known finding asp-pads-never-crops: angular_spectrum with Q != 1 (default Q=2) returns the padded grid and never crops, so '
              'the literal "identity at zero distance / undoes itself / composes additively" hold on the padded grid only; no safe repair '
              '(cropping back loses the diffracted energy). Evanescent-wave physics is out of scope (the Fresnel transfer function is what '
